@@ -573,7 +573,7 @@ def translated_obligations(ctx, build_done=None):
     os.makedirs(gen, exist_ok=True)
     flags = ["-Q", gen, "ArtapGen"]
     ctx.trusted_extra.append(
-        "tools/py2coq*.py (translator; front-ends py2coq, py2coq_bench, py2coq_eff, py2coq_heap): the generated definitions are what the Python source of the translated "
+        "tools/py2coq*.py (translator; front-ends py2coq, py2coq_bench, py2coq_eff, py2coq_heap, py2coq_run, py2coq_var, py2coq_swarm, py2coq_np): the generated definitions are what the Python source of the translated "
         "functions means under the translator's stated assumptions (notes/TRANSLATOR.md: float `/` is `div`, no "
         "operator overloading, attribute reads are plain reads, numeric literals by name, markers as integers); "
         "they are proved equal to the hand-written model on every run, and the model is compared with the running "
